@@ -11,7 +11,7 @@ def l1(ctx):
 
 def graph(ctx, quick):
     if quick:
-        c.graph_leg(ctx, "Backward.tla", "backward", "Gen_Backward.cfg", {}, 0, 4, 0, "Sim_Backward.cfg", 250, 9)
+        c.graph_leg(ctx, "Backward.tla", "backward", "Gen_Backward.cfg", {}, 0, 4, 0, "Sim_Backward.cfg", 120, 9)
     else:
         c.graph_leg(ctx, "Backward.tla", "backward", "Gen_Backward_3.cfg", {}, 0, 4, 0, "Sim_Backward.cfg", 6000, 9, timeout=3000)
 
